@@ -40,7 +40,9 @@ theorem lexer_never_crashes (l r lc rc input : Bytes) (m : String) (e : List Eve
 theorem lexer_items_are_well_formed (l r lc rc input : Bytes) :
     ∀ ev ∈ (lexRun (mkDelims l r lc rc) input).evs, EvOk input.length ev ∧ FieldEv ev := by
   unfold lexRun
-  exact (runLoop_ok _ StateId.text _ (initial_B _ (mkDelims_wf l r lc rc) input) trivial).2
+  intro ev hev
+  have := (runLoop_ok _ StateId.text _ (initial_B _ (mkDelims_wf l r lc rc) input) trivial).2 ev hev
+  exact ⟨this.1, this.2.1⟩
 
 /-- one step of the state machine from any state satisfying the invariant and the entry fact of the
     state function: no crash, invariant and next entry fact re-established -/
